@@ -249,6 +249,14 @@ class Model:
                 search = inline_search[0]
                 succ_var = inline_search[1]
         if succ_var is None or search is None:
+            deep = [dotted(n.func) for n in ast.walk(ieb.node) if isinstance(n, ast.Call) and dotted(n.func) in (
+                "self.iter", "self.iterdescendants", "self.xpath", "self.iterfind", "self.findall", "self.getiterator")]
+            if deep:
+                self.semantics = "doc-order"
+                P.append(("violation", "%s:%d" % (m.relpath, ieb.line),
+                          "insert_element_before looks for the successor with %s, which is not restricted to direct children: "
+                          "a descendant of an earlier sibling can be taken as the successor" % deep[0]))
+                return
             raise AnalysisError("xmlchemy.insert_element_before: successor search not recognised")
         self.semantics = search  # "tag-order" | "doc-order"
         # find `if <succ> is not None: succ.addprevious(elm) else: self.append(elm)`
